@@ -54,9 +54,10 @@ type c14Held struct {
 type c14Scenario struct {
 	name    string
 	n       int
-	script  string // reverse | random | dup-seq | dup-race | drop | unsolicited | collide | hold | late | rst
+	script  string // reverse | random | dup-seq | dup-race | drop | unsolicited | collide | collide-wfail | write-fail | hold | late | rst
 	dropMod int
 	holdMs  int
+	failMod int // write-fail: the write of every failMod-th caller's request fails
 }
 
 type c14Ctl struct {
@@ -76,7 +77,7 @@ func c14Reply(q *faketc.Req) *wire.Msg {
 }
 
 func runC14(r *vc.Run, replay string) {
-	r.Rule = "cases = one per (scenario, caller): N in {2,8,64,512} concurrent SendSyncRequest callers under reply scripts {reverse, random permutation, sequential duplicates, back-to-back duplicates, drops (20 s timeout), unsolicited responses for unknown ids, phase-two requests with ids colliding with in-flight client ids, replies held across several heart-beats, reply after the caller's timeout (thorough), connection reset with requests pending, and - on a client with two coordinator sessions - one session reset while requests are pending on the other}; each reply carries '<name>#<frame id>' so the response a caller got identifies the request it answers; after each scenario: pending futures, goroutines parked in response delivery, and a fresh request; distinct_nontrivial = distinct (script, N class, caller outcome) among callers whose request reached the TC"
+	r.Rule = "cases = one per (scenario, caller): N in {2,8,64,512} concurrent SendSyncRequest callers under reply scripts {reverse, random permutation, sequential duplicates, back-to-back duplicates, drops (20 s timeout), unsolicited responses for unknown ids, phase-two requests with ids colliding with in-flight client ids (also with the answers to them failing at the package write), requests whose own package write fails, replies held across several heart-beats, reply after the caller's timeout (thorough), connection reset with requests pending, and - on a client with two coordinator sessions - one session reset while requests are pending on the other}; each reply carries '<name>#<frame id>' so the response a caller got identifies the request it answers; after each scenario: pending futures, goroutines parked in response delivery, and a fresh request; distinct_nontrivial = distinct (script, N class, caller outcome) among callers whose request reached the TC"
 	r.Assumptions = []string{"the client child is built with -race; a race report whose accessing stacks all lie in the message-future code (GettyRemoting / GettyRemotingClient / message future) is a violation here, every other report is owned by C20 and only counted",
 		"quiescence is logical: all callers returned and a final round trip on the same session completed"}
 	if os.Getenv("VERIF_C14_ONLY") == "storm" {
@@ -130,7 +131,7 @@ func runC14(r *vc.Run, replay string) {
 	rnd := vc.NewRand(r.Seed, "c14")
 	var scenarios []*c14Scenario
 	add := func(script string, n int) {
-		scenarios = append(scenarios, &c14Scenario{name: fmt.Sprintf("c14-%02d-%s", len(scenarios), script), n: n, script: script, dropMod: 3, holdMs: 3600})
+		scenarios = append(scenarios, &c14Scenario{name: fmt.Sprintf("c14-%02d-%s", len(scenarios), script), n: n, script: script, dropMod: 3, holdMs: 3600, failMod: 3})
 	}
 	// first, while message ids are still small: replies held across several heart-beats (heart-beat ids count from 1 too)
 	add("hold", 16)
@@ -145,6 +146,10 @@ func runC14(r *vc.Run, replay string) {
 	add("unsolicited", 8)
 	add("collide", 8)
 	add("collide", 64)
+	add("collide-wfail", 8)
+	add("collide-wfail", 64)
+	add("write-fail", 9)
+	add("write-fail", 64)
 	if r.Tier == "thorough" {
 		add("dup-race", 512)
 		add("collide", 512)
@@ -231,6 +236,19 @@ func c14Run(r *vc.Run, w *world.World, ch *vc.Child, ctl *c14Ctl, sc *c14Scenari
 	var calls []c14Call
 	var callErr error
 	done := make(chan struct{})
+	writeFails := map[string]bool{}
+	expectHeld := sc.n
+	if sc.script == "write-fail" {
+		var fn []string
+		for i, nm := range names {
+			if i%sc.failMod == 0 {
+				writeFails[nm] = true
+				fn = append(fn, nm)
+			}
+		}
+		expectHeld = sc.n - len(fn)
+		ch.Call("rpc_write_fault", map[string]interface{}{"request_names": fn}, nil)
+	}
 	go func() {
 		callErr = ch.Call("rpc_burst", map[string]interface{}{"case": sc.name, "names": names}, &calls)
 		close(done)
@@ -239,7 +257,7 @@ func c14Run(r *vc.Run, w *world.World, ch *vc.Child, ctl *c14Ctl, sc *c14Scenari
 	arrived := make(chan struct{})
 	go func() {
 		ctl.mu.Lock()
-		for len(ctl.held[sc.name]) < sc.n {
+		for len(ctl.held[sc.name]) < expectHeld {
 			ctl.cond.Wait()
 		}
 		ctl.mu.Unlock()
@@ -264,7 +282,7 @@ func c14Run(r *vc.Run, w *world.World, ch *vc.Child, ctl *c14Ctl, sc *c14Scenari
 	dropped := map[string]bool{}
 	collided := 0
 	switch sc.script {
-	case "reverse", "dup-seq", "dup-race", "unsolicited", "collide", "hold", "late", "rst":
+	case "reverse", "dup-seq", "dup-race", "unsolicited", "collide", "collide-wfail", "write-fail", "hold", "late", "rst":
 		for i, j := 0, len(order)-1; i < j; i, j = i+1, j-1 {
 			order[i], order[j] = order[j], order[i]
 		}
@@ -285,8 +303,17 @@ func c14Run(r *vc.Run, w *world.World, ch *vc.Child, ctl *c14Ctl, sc *c14Scenari
 				s.Reply(uint32(900000+k), m)
 			}
 		}
-	case "collide":
-		// phase-two requests whose message ids equal the ids of the in-flight client requests
+	case "collide", "collide-wfail":
+		// phase-two requests whose message ids equal the ids of the in-flight client requests; in the second variant the
+		// client's answers to them fail at the package write (an un-awaited message that cannot be sent must not touch
+		// the bookkeeping of the awaited request with the same number)
+		if sc.script == "collide-wfail" {
+			var ids []int32
+			for _, q := range held {
+				ids = append(ids, int32(q.Frame.ID))
+			}
+			ch.Call("rpc_write_fault", map[string]interface{}{"response_ids": ids}, nil)
+		}
 		for _, q := range held {
 			m := wire.New(wire.TBranchCommit, "xid", "127.0.0.1:1:1", "branchId", 1, "branchType", 0, "resourceId", "no-such-resource", "applicationData", "")
 			_, chResp, err := w.TC.Request(q.S, m, q.Frame.ID)
@@ -301,6 +328,16 @@ func c14Run(r *vc.Run, w *world.World, ch *vc.Child, ctl *c14Ctl, sc *c14Scenari
 			}
 		}
 		time.Sleep(300 * time.Millisecond)
+		if sc.script == "collide-wfail" {
+			var st struct {
+				Injected int `json:"injected"`
+			}
+			ch.Call("rpc_write_fault", map[string]interface{}{}, &st)
+			r.Count("answers_to_colliding_requests_failed_at_write", int64(st.Injected))
+			if st.Injected == 0 {
+				r.Inconc(sc.name + ": no write failure was injected")
+			}
+		}
 	case "rst":
 		if len(held) > 0 {
 			held[0].S.Kill(true)
@@ -337,6 +374,13 @@ func c14Run(r *vc.Run, w *world.World, ch *vc.Child, ctl *c14Ctl, sc *c14Scenari
 	ctl.mu.Lock()
 	delete(ctl.active, sc.name)
 	ctl.mu.Unlock()
+	if sc.script == "write-fail" {
+		var st struct {
+			Injected int `json:"injected"`
+		}
+		ch.Call("rpc_write_fault", map[string]interface{}{}, &st)
+		r.Count("requests_failed_at_write", int64(st.Injected))
+	}
 	if callErr != nil {
 		r.Inconc(sc.name + ": control call failed: " + callErr.Error())
 		return
@@ -372,6 +416,15 @@ func c14Run(r *vc.Run, w *world.World, ch *vc.Child, ctl *c14Ctl, sc *c14Scenari
 		}
 		if c.Panic != "" {
 			viol("caller-panic", "SendSyncRequest panicked: "+clipStr(c.Panic, 300))
+			continue
+		}
+		if writeFails[c.Name] {
+			r.Case(fmt.Sprintf("%s|%s|write-failed:%s", sc.script, ncls, outcome), map[string]interface{}{"scenario": sc.name, "caller": c})
+			if c.Err == "" {
+				viol("write-failure-swallowed", fmt.Sprintf("the request of caller %s could not be written, yet the caller got %q instead of an error", c.Name, c.Xid))
+			} else if c.Ms > 5000 {
+				viol("write-failure-swallowed", fmt.Sprintf("the request of caller %s could not be written; the caller was told only after %d ms (%s)", c.Name, c.Ms, clipStr(c.Err, 100)))
+			}
 			continue
 		}
 		expectErr := dropped[c.Name] || sc.script == "rst" || sc.script == "late"
